@@ -551,6 +551,26 @@ func sameAddrOrVal(a, b ssa.Value) bool {
 	return sameAddr(a, b) || sameValue(a, b)
 }
 
+// noWriteBetween: a and b are in one block; no store, call or defer lies between them.
+func noWriteBetween(a, b ssa.Instruction) bool {
+	blk := a.Block()
+	ia, ib := instrIndex(a), instrIndex(b)
+	if ia > ib {
+		ia, ib = ib, ia
+	}
+	for k := ia + 1; k < ib; k++ {
+		switch x := blk.Instrs[k].(type) {
+		case *ssa.Store, *ssa.Defer, *ssa.Go, *ssa.MapUpdate, *ssa.Send, *ssa.RunDefers:
+			return false
+		case *ssa.Call:
+			if _, isBuiltin := x.Call.Value.(*ssa.Builtin); !isBuiltin {
+				return false
+			}
+		}
+	}
+	return true
+}
+
 // sameValue: structural equality of pure SSA values (go/ssa does no CSE).
 // Loads are equal only if they are the same instruction, or loads of the same
 // never-reassigned cell (a cell with at most one store).
@@ -594,8 +614,12 @@ func sameValue(a, b ssa.Value) bool {
 		if x.Op != token.MUL {
 			return sameValue(x.X, y.X)
 		}
-		// loads: same single-assignment cell
+		// loads: same single-assignment cell, or two loads of one address in one
+		// block with no store or call in between (go/ssa does no CSE)
 		if sameAddr(x.X, y.X) {
+			if x.Block() == y.Block() && noWriteBetween(x, y) {
+				return true
+			}
 			root := cellRoot(x.X)
 			if _, isAlloc := root.(*ssa.Alloc); isAlloc {
 				_, stores, esc := cellStores(x.X)
